@@ -132,6 +132,27 @@ def _literals(tier):
             yield '-' + h
         if 'e' in h:
             yield h.replace('e', ' E ')
+    # literals a hair beside the midpoint of two neighbouring binary32 / binary64 values: correct rounding must look at
+    # all digits (a conversion that rounds twice, e.g. via double, goes the wrong way here)
+    for mant_bits, e_list in ((24, (-140, -126, -30, -1, 0, 1, 23, 24, 60, 127)), (53, (-1070, -1022, -60, 0, 52, 53, 300, 1023))):
+        for e in e_list:
+            for m in ((1 << (mant_bits - 1)), (1 << (mant_bits - 1)) + 1, (1 << mant_bits) - 2, (1 << (mant_bits - 1)) + 0x2AAAA):
+                lo = Fraction(m) * Fraction(2) ** (e - (mant_bits - 1))
+                mid = lo + Fraction(2) ** (e - mant_bits)
+                for delta in (Fraction(0), Fraction(1, 10**40) * mid, -Fraction(1, 10**40) * mid, Fraction(1, 10**18) * mid, -Fraction(1, 10**18) * mid):
+                    v = mid + delta
+                    # decimal literal with 60 significant digits, exponent form
+                    import math as _m
+                    e10 = len(str(v.numerator // v.denominator)) - 1 if v >= 1 else -len(str(v.denominator // v.numerator))
+                    scaled = v / Fraction(10) ** e10
+                    digits = str((scaled * 10**59).numerator // (scaled * 10**59).denominator)
+                    if delta == 0:
+                        # exact midpoints have finite expansions but may need more than 60 digits: skip unless exact
+                        if Fraction(int(digits), 10**59) * Fraction(10) ** e10 != v:
+                            continue
+                    lit = digits[0] + '.' + digits[1:] + 'e%d' % e10
+                    yield lit
+                    yield '-' + lit
     # integer literals around the type limits
     for v in (0, 1, 7, 2**31 - 1, 2**31, 2**32 - 1, 2**32, 2**63 - 1, 2**63, 2**64 - 1, 12345, 99999999):
         for s in (str(v), '+' + str(v), '-' + str(v), '00' + str(v)):
